@@ -34,6 +34,7 @@ func init() {
 	commands["bridge-worker"] = bridgex.Worker
 	commands["host"] = hostx.Run
 	commands["api"] = apix.Run
+	commands["api-seq"] = apix.SeqCmd
 	commands["conc"] = concx.Run
 	commands["conc-clock"] = concx.ClockCmd
 	commands["conc-child"] = concx.Child
